@@ -50,7 +50,7 @@ def get_ip(t, ip):
 def run(chk, replay=None):
     rng = random.Random(chk.seed)
     th = chk.tier == 'thorough'
-    cases = streams.corpus_lines() + streams.fixture_lines() + streams.deep_lines()[::2] + streams.anyjson_lines(rng, 2500 if th else 500) + streams.grammar_lines(rng, 1500 if th else 300) + streams.search_lines(rng, None if th else 400)
+    cases = streams.corpus_lines() + streams.fixture_lines() + streams.deep_lines()[::2] + streams.anyjson_lines(rng, 2500 if th else 500) + streams.grammar_lines(rng, 1500 if th else 300) + streams.search_lines(rng, None if th else 400) + streams.degenerate_lines()[::3]
     cfgs = streams.value_cfgs(rng, 10 if th else 4) + [Cfg(encrypt=True, key=streams.KEY, nss=True, ips=True), Cfg(eager=['shop.events', 'app_db', 'mydb.users'], nums=True)]
     streams.note_distribution(chk, cases)
     chk.rule = ("arbitrary JSON lines over all components (numbers of every notation/magnitude) and grammar lines x flag sets; the non-zone part of the tree "
